@@ -73,6 +73,14 @@ def extract_tables(prog):
         if exv is None and isinstance(ex, ast.Call) and isinstance(ex.func, ast.Name):
             # a named record of the three constants:  ExponentialTerm(a_0=.., a_1=.., a_2=..)  declared with namedtuple
             decl = mod.assigns.get(ex.func.id)
+            if decl is None:
+                # class ExponentialTerm(namedtuple('ExponentialTerm', [...])): ...   /   class ExponentialTerm(NamedTuple): a_0: float ...
+                ci_ = next((c_ for c_ in prog.classes.values() if c_.module is mod and c_.name == ex.func.id), None)
+                if ci_ is not None:
+                    decl = next((b_ for b_ in ci_.node.bases if isinstance(b_, ast.Call) and (call_name(b_) or "").split(".")[-1] == "namedtuple"), None)
+                    if decl is None and any("NamedTuple" in (dotted(b_) or "") for b_ in ci_.node.bases):
+                        fl_ = [n_.target.id for n_ in ci_.node.body if isinstance(n_, ast.AnnAssign) and isinstance(n_.target, ast.Name)]
+                        decl = ast.Call(func=ast.Name(id="namedtuple", ctx=ast.Load()), args=[ast.Constant(value=ci_.name), ast.Constant(value=" ".join(fl_))], keywords=[])
             if isinstance(decl, ast.Call) and (call_name(decl) or "").split(".")[-1] == "namedtuple" and len(decl.args) >= 2:
                 names = prog.try_fold(decl.args[1], mod)
                 if isinstance(names, str):
